@@ -417,12 +417,6 @@ class NetworkServiceAccessPoint(ServiceAccessPoint, Server, DebugContents):
         npdu.pduDestination = None
         npdu.npduDADR = apdu.pduDestination
 
-        # we might already be waiting for a path for this network
-        if dnet in self.pending_nets:
-            if _debug: NetworkServiceAccessPoint._debug("    - already waiting for path")
-            self.pending_nets[dnet].append(npdu)
-            return
-
         # look for routing information from the network of one of our
         # adapters to the destination network
         router_info = None
@@ -439,11 +433,22 @@ class NetworkServiceAccessPoint(ServiceAccessPoint, Server, DebugContents):
             dnet_status = router_info.dnets[dnet]
             if _debug: NetworkServiceAccessPoint._debug("    - dnet_status: %r", dnet_status)
 
+            # the path might have been learned from passing traffic while
+            # packets were waiting for it, they go first
+            for pending_npdu in self.pending_nets.pop(dnet, []):
+                pending_npdu.pduDestination = router_info.address
+                snet_adapter.process_npdu(pending_npdu)
+
             # fix the destination
             npdu.pduDestination = router_info.address
 
             # send it along
             snet_adapter.process_npdu(npdu)
+
+        # we might already be waiting for a path for this network
+        elif dnet in self.pending_nets:
+            if _debug: NetworkServiceAccessPoint._debug("    - already waiting for path")
+            self.pending_nets[dnet].append(npdu)
 
         else:
             if _debug: NetworkServiceAccessPoint._debug("    - no known path to network")
